@@ -921,7 +921,7 @@ pub fn run(ctx: &Ctx) -> i32 {
     let cap = std::env::var("VERIF_C11_CAP")
         .ok()
         .and_then(|s| s.parse::<f64>().ok())
-        .unwrap_or(ctx.tier.pick(50.0, 540.0));
+        .unwrap_or(ctx.tier.pick(120.0, 1500.0));
 
     let singles = Singles::new(level);
     let pairs = Pairs::new(level);
